@@ -69,6 +69,18 @@ func scenarios(tier string) []vlib.Scenario {
 	for _, o := range []string{"streams-first", "conn-only"} {
 		add(params{Streams: "down", Pending: "queued", Failure: "none", Order: o, P: 1})
 	}
+	// only the streams are closed (the connection stays up) and the broker answers their close requests with a failure
+	// or not at all: the streams are closed all the same
+	for _, st := range []string{"up", "down", "up+down"} {
+		for _, f := range []string{"none", "closefail", "closesilent"} {
+			add(params{Streams: st, Pending: "none", Failure: f, Order: "streams-only"})
+		}
+	}
+	add(params{Streams: "up+down", Pending: "write", Failure: "closefail", Order: "streams-only", P: 1})
+	// the peer answers the Disconnect with a burst of calls and call acks nobody will consume any more
+	add(params{Streams: "none", Pending: "flood", Failure: "none", Order: "conn-only"})
+	add(params{Streams: "none", Pending: "flood", Failure: "none", Order: "conn-only", P: 1})
+	add(params{Streams: "up+down", Pending: "flood", Failure: "none", Order: "conn-first", P: 1})
 	// the resume is refused and the close request the library sends for the refused stream is never answered;
 	// the application closes the streams meanwhile
 	for _, st := range []string{"up", "down", "up+down"} {
@@ -140,6 +152,9 @@ func (w *world) script() *sim.Script {
 		}
 		return true, 0
 	}
+	if w.p.Failure == "closefail" {
+		s.UpCloseResult = func(c *sim.BConn, u *sim.UpStream) message.ResultCode { return message.ResultCodeStreamNotFound }
+	}
 	if w.p.Failure == "refused-noclose" {
 		s.UpResumeResult = func(c *sim.BConn, u *sim.UpStream, attempt int) message.ResultCode { return message.ResultCodeStreamNotFound }
 		s.DownResumeResult = func(c *sim.BConn, d *sim.DownStream, attempt int) message.ResultCode { return message.ResultCodeStreamNotFound }
@@ -156,6 +171,20 @@ func (w *world) script() *sim.Script {
 		}
 	}
 	s.OnMessage = func(b *sim.Broker, c *sim.BConn, m message.Message) bool {
+		if w.p.Failure == "closesilent" || (w.p.Failure == "closefail" && strings.Contains(w.p.Streams, "down")) {
+			switch r := m.(type) {
+			case *message.UpstreamCloseRequest:
+				if w.p.Failure == "closesilent" {
+					return true // never answered
+				}
+			case *message.DownstreamCloseRequest:
+				if w.p.Failure == "closesilent" {
+					return true
+				}
+				b.Send(c, &message.DownstreamCloseResponse{RequestID: r.RequestID, ResultCode: message.ResultCodeStreamNotFound, ResultString: "refused"})
+				return true
+			}
+		}
 		if w.p.Failure == "refused-noclose" && c.Idx > 0 {
 			switch m.(type) {
 			case *message.UpstreamCloseRequest, *message.DownstreamCloseRequest:
@@ -170,6 +199,13 @@ func (w *world) script() *sim.Script {
 			case *message.UpstreamResumeRequest, *message.DownstreamResumeRequest:
 				return true // never answered: half-finished resume
 			}
+		}
+		if _, ok := m.(*message.Disconnect); ok && w.p.Pending == "flood" {
+			for i := 0; i < 12; i++ {
+				b.Send(c, &message.DownstreamCall{CallID: fmt.Sprintf("flood-%d", i), SourceNodeID: "peer", Name: "n", Type: "t"})
+				b.Send(c, &message.UpstreamCallAck{CallID: fmt.Sprintf("nobody-%d", i), ResultCode: message.ResultCodeSucceeded})
+			}
+			return false
 		}
 		if _, ok := m.(*message.UpstreamCall); ok && w.p.Pending == "call" {
 			// ack the call but never send the reply: the caller stays pending
@@ -189,6 +225,24 @@ func (w *world) try(name string, nilOK bool, f func(ctx context.Context) error) 
 	cancel()
 	p.dt = vsched.Now() - t0
 	p.done = true
+}
+
+// postStreams calls every stream-level API on the closed streams.
+func (w *world) postStreams() {
+	for _, u := range w.Ups {
+		u := u
+		w.try("Upstream.WriteDataPoints", false, func(ctx context.Context) error { return u.Write(ctx, kit.IDA, "late") })
+		w.try("Upstream.Flush", false, func(ctx context.Context) error { return u.U.Flush(ctx) })
+		w.try("Upstream.Close", true, func(ctx context.Context) error { return u.U.Close(ctx) })
+		u.U.State()
+	}
+	for _, d := range w.Downs {
+		d := d
+		w.try("Downstream.ReadDataPoints", false, func(ctx context.Context) error { _, err := d.D.ReadDataPoints(ctx); return err })
+		w.try("Downstream.ReadMetadata", false, func(ctx context.Context) error { _, err := d.D.ReadMetadata(ctx); return err })
+		w.try("Downstream.Close", true, func(ctx context.Context) error { return d.D.Close(ctx) })
+		d.D.State()
+	}
 }
 
 func (w *world) closeStreams(tag string) {
@@ -274,7 +328,7 @@ func (w *world) main() {
 	}
 	vsched.Quiesce()
 	w.Phase = "failure"
-	if w.p.Failure != "none" {
+	if w.p.Failure != "none" && w.p.Failure != "closefail" && w.p.Failure != "closesilent" {
 		w.B.Cut(w.B.Live())
 		vsched.Sleep(4*time.Second, "h:outage") // detected by keep-alive, reconnect (and resume) under way
 	}
@@ -289,26 +343,17 @@ func (w *world) main() {
 		w.closeStreams("after-conn")
 	case "conn-only":
 		w.closeOne("conn", func(ctx context.Context) error { return w.Conn.Close(ctx) })
+	case "streams-only":
+		w.closeStreams("only")
+		w.Phase = "post-streams"
+		w.postStreams()
+		w.Phase = "closing"
+		w.closeOne("conn", func(ctx context.Context) error { return w.Conn.Close(ctx) })
 	}
 	w.dialsAtClose = w.B.Dials
 	w.Phase = "post"
 	// every API once more on the closed objects
-	for _, u := range w.Ups {
-		u := u
-		closedByUs := w.p.Order != "conn-only"
-		_ = closedByUs
-		w.try("Upstream.WriteDataPoints", false, func(ctx context.Context) error { return u.Write(ctx, kit.IDA, "late") })
-		w.try("Upstream.Flush", false, func(ctx context.Context) error { return u.U.Flush(ctx) })
-		w.try("Upstream.Close", true, func(ctx context.Context) error { return u.U.Close(ctx) })
-		u.U.State()
-	}
-	for _, d := range w.Downs {
-		d := d
-		w.try("Downstream.ReadDataPoints", false, func(ctx context.Context) error { _, err := d.D.ReadDataPoints(ctx); return err })
-		w.try("Downstream.ReadMetadata", false, func(ctx context.Context) error { _, err := d.D.ReadMetadata(ctx); return err })
-		w.try("Downstream.Close", true, func(ctx context.Context) error { return d.D.Close(ctx) })
-		d.D.State()
-	}
+	w.postStreams()
 	w.try("Conn.OpenUpstream", false, func(ctx context.Context) error { _, err := w.Conn.OpenUpstream(ctx, "late"); return err })
 	w.try("Conn.OpenDownstream", false, func(ctx context.Context) error { _, err := w.Conn.OpenDownstream(ctx, kit.Filter("x")); return err })
 	w.try("Conn.SendMetadata", false, func(ctx context.Context) error { return w.Conn.SendMetadata(ctx, &message.BaseTime{Name: "late"}) })
